@@ -65,6 +65,15 @@ CHECKS = {
              'vs composed from every split. Fixpoint = closure is proved separately (RelFix) when that file is present.',
         design_ref='DESIGN.md §5 C10',
         note='Relations well formed (square, distinct non-empty names, well-formed monomials).'),
+    'C17': dict(
+        technique='Lean 4 proof (case analysis over all flag combinations) over a model of the argparse table (regenerated) and main() plumbing + subprocess correspondence',
+        text='Partial: theorem plan_flags proves, for all 2^6 flag settings x {F,L} x {--out or not} and every path not '
+             'starting with -, that the options reach the library unchanged and exactly one file (--out or '
+             'output/<stem>.json) is written unless --no_save; the argparse table is regenerated from the live parser. '
+             'Runtime part (process exit status, files on disk, gcc -E, equality of the saved JSON with the in-process '
+             'library result, independence of --no_cpp) is explored by running the real CLI in subprocesses.',
+        design_ref='DESIGN.md §5 C17',
+        note='Process, filesystem, logging and the C pre-processor are observed, not modelled; gcc -E assumed identity on directive-free text.'),
 }
 
 NOT_YET = {}
